@@ -78,7 +78,7 @@ func (cc *compCase) genUse(c *core.Ctx, def compDef, scopeVar string, forceNoSlo
 	if strings.HasPrefix(name, "components/") && r.Intn(2) == 0 {
 		name = "~" + strings.TrimPrefix(name, "components/")
 	}
-	use := model.Component{Name: name}
+	use := model.Component{Name: name, Gap: []string{"", "", " ", "\n  ", "\r\n\t"}[r.Intn(5)]}
 	if len(def.args) > 0 {
 		ol := model.ObjLit{}
 		for ai, a := range def.args {
